@@ -512,3 +512,37 @@ def parse_coq_value(s):
 
     v = app()
     return v
+
+
+def generic_replay(ck, mod, path):
+    """--replay for the checks whose replay is a simulator scenario: re-run the scenario on the current tree, print
+    a summary of the run and what the check's own monitor says about it.  Exit 1 when the violation reproduces."""
+    import json as _json
+    rp = _json.load(open(path))
+    body = rp.get("replay") or {}
+    sc = body.get("scenario") if isinstance(body, dict) and "scenario" in body else body
+    if not isinstance(sc, dict) or "id" not in sc:
+        print(_json.dumps(rp, indent=1)[:6000])
+        print("this replay carries no simulator scenario (a broken proof obligation or correspondence): re-run the check itself")
+        return 0
+    drv = body.get("driver")
+    if drv == "c07_impl.py" or ck.pid in ("C07",):
+        import c07
+        r = c07.run_scenarios([sc])[0]
+    elif "members" in sc or "n_members" in sc or "consumers" in sc:
+        import conssim
+        r = conssim.run_scenarios([sc], shards=1)[0]
+    else:
+        import prodsim
+        r = prodsim.run_scenarios([sc], shards=1)[0]
+    print(_json.dumps({k: v for k, v in r.items() if k not in ("trace", "logs")}, indent=1, default=str)[:5000])
+    n0 = len(ck.violations)
+    mon = getattr(mod, "monitor", None)
+    if mon is not None and r.get("ok") and drv is None:
+        try:
+            mon(ck, sc, r)
+        except TypeError:
+            pass
+    for v in ck.violations[n0:]:
+        print("REPRODUCED:", v.what[:500])
+    return 1 if len(ck.violations) > n0 else 0
